@@ -316,6 +316,25 @@ class Session:
             ev["lab"] = self.built.labels_class()
             ev["mem"] = self.built.membership()
             evs.append(ev)
+        # one more "call": ANOTHER dataset object of the same class is built on another label set (train, then val) and read.
+        # It is a call like any other: nothing this dataset holds may change, later reads return what they returned before.
+        ev = dict(op="call", f="another_dataset_object", raised="", cache=[], lab=0, mem=[])
+        tmp2 = tempfile.mkdtemp(prefix="verif_c11b_", dir=TMP_ROOT) if self.cfg["chunks"] else None
+        try:
+            lab2 = [list(reversed(fr)) for fr in reversed(self.lab)]          # other frames first, other animals first
+            other = Built(lab2, hw=(self.built.images[0].shape[0], self.built.images[0].shape[1]), channels=self.built.images[0].shape[2], seed=12345)
+            ds2 = make_dataset(self.cfg, other, tmp2)
+            for k in range(min(2, len(ds2))):
+                ds2[k]
+        except Exception as e:  # noqa: BLE001
+            ev["raised"] = "%s: %s" % (type(e).__name__, str(e)[:200])
+        finally:
+            if tmp2:
+                shutil.rmtree(tmp2, ignore_errors=True)
+        ev["cache"] = store_classes(store_snapshot(self.ds, self.cfg, self.tmp), self.snap0, self.cfg)
+        ev["lab"] = self.built.labels_class()
+        ev["mem"] = self.built.membership()
+        evs.append(ev)
         return evs
 
     def get(self, i0, ref):
